@@ -94,7 +94,7 @@ Proof. intros E q. rewrite getn_setn. destruct (Nat.eqb_spec q c) as [->|]; auto
 Lemma append_attached_err p c s s' x : append_attached p c s = (s', Err x) -> s' = s.
 Proof.
   unfold append_attached. cbn [mbind node_of lift].
-  destruct (admission_checks _ _) as [[]|y]; [|now intros [= <- _]].
+  destruct (acceptance_checks _ _) as [[]|y]; [|now intros [= <- _]].
   destruct (oid_eqb _ _); [discriminate|]. destruct (oid_eqb _ _); discriminate.
 Qed.
 Lemma seg_counter_err p c s s' x : seg_counter p c s = (s', Err x) -> x = PyValueError /\ s' = s.
@@ -234,7 +234,7 @@ Proof.
   rewrite mbind_run. cbn [ret mbind node_of]. now rewrite Hn.
 Qed.
 
-(* ---------- a rejected assignment: refusal at admission time (append path) ---------- *)
+(* ---------- a rejected assignment: refusal at acceptance time (append path) ---------- *)
 
 (* nodes below n0 are untouched, nothing is deallocated *)
 Definition same_under (n0 : nat) (s s' : store) : Prop :=
@@ -309,7 +309,7 @@ Qed.
 Lemma append_attached_tp p c s s' : append_attached p c s = (s', Ok tt) -> n_tparent (getn s' p) = n_tparent (getn s p).
 Proof.
   unfold append_attached. cbn [mbind node_of lift].
-  destruct (admission_checks _ _) as [[]|y]; [|discriminate].
+  destruct (acceptance_checks _ _) as [[]|y]; [|discriminate].
   destruct (oid_eqb _ _).
   - unfold do_append, modify. intros [= <-]. now rewrite getn_setn_same.
   - destruct (oid_eqb _ _).
